@@ -401,3 +401,81 @@ def check_table_modified(chk, ix):
                       "ScenarioOutline.scenarios with an examples table modified=%s: scenarios %s" % (
                           modified, "rebuilt" if rebuilt else "NOT rebuilt (the old expansion is returned)"), s.path)
     chk.require_instances("B4", 5)
+
+
+WHAT["B8"] = "tags rendered from a row (Tag.make_name) keep every alphanumeric character of the cell, unicode included; blanks become '_', quotes and other punctuation outside the allowed set disappear"
+
+
+def check_tag_names(chk, ix):
+    """B8: Tag.make_name constant-folded on cell values (it turns '<column>' tags into tag names)."""
+    chk.rule("B8", WHAT["B8"])
+    tc = ix.cls("behave.model:Tag")
+    f = tc.lookup("make_name")
+    lc = tc.lookup_const("allowed_chars")
+    allowed = ix.fold(lc[1], lc[0].module) if lc else "._-=:,;()"
+    lq = tc.lookup_const("quoting_chars")
+    quoting = tuple(ix.fold(lq[1], lq[0].module)) if lq else ("'", '"', "<", ">")
+
+    def oracle(text):
+        out = []
+        for ch in text:
+            if ch.isalnum() or ch in allowed:
+                out.append(ch)
+            elif ch.isspace():
+                out.append("_")
+        return "".join(out)
+    samples = ["plain", "two words", "Zürich", "København", "東京", "a.b-c=d:e", 'say "hi"', "<value>", "x/y&z", "tab\there", "", "café au lait", "1.2.3", "(a,b);c"]
+    it = Interp(ix, name="Tag.make_name")
+    it.fold_regex = True
+    it.int_sat = 1000
+    it.list_cap = 1000
+    for text in samples:
+        st = State()
+        st.frames = []
+        outs = it.call_function(st, f, [text], {}, None, self_val=ClassVal(tc))
+        chk.instance("B8")
+        if len(outs) != 1 or outs[0][1] != "val" or not isinstance(outs[0][2], str):
+            raise AnalysisError("Tag.make_name not foldable on %r: %r" % (text, [(k, v) for _, k, v in outs][:2]))
+        want = oracle(text)
+        if outs[0][2] == want:
+            chk.ok("B8", {"cell": text, "tag name": want}, nontrivial_key=text)
+        else:
+            _fail(chk, "B8", f, "%r -> %r" % (text, outs[0][2]), "Tag.make_name(%r) gives %r; keeping alphanumerics (any script) and the allowed punctuation, "
+                  "blanks as '_', gives %r - a row tag built from this cell no longer matches the value shown in the scenario" % (text, outs[0][2], want))
+    chk.absorb(it)
+
+
+WHAT["B9"] = "row tags: every '<placeholder>' of an outline tag is rendered from the row's cells AND from the row parameters (row.id, row.index, examples.name, examples.index); tags with unknown placeholders are dropped"
+
+
+def check_row_tags_concrete(chk, ix, rule="B9"):
+    """make_row_tags constant-folded: parametrised outline tags use the same placeholder sources as names and steps."""
+    chk.rule(rule, WHAT["B9"])
+    bc = ix.cls("behave.model:ScenarioOutlineBuilder")
+    f = bc.lookup("make_row_tags")
+    it = Interp(ix, name="make_row_tags")
+    it.fold_regex = True
+    it.int_sat = 1000
+    it.list_cap = 100
+    cases = [(["fixed", "city.<city>", "row.<row.id>", "ex.<examples.name>", "unknown.<nope>", "n<row.index>.<city>"],
+              [("city", "Paris")], [("row.id", "1.2"), ("row.index", "2"), ("examples.name", "E1"), ("examples.index", "1")],
+              ["fixed", "city.Paris", "row.1.2", "ex.E1", "n2.Paris"]),
+             (["plain"], [("city", "Rome")], [], ["plain"]),
+             ([], [("city", "Rome")], [("row.id", "1.1")], [])]
+    for tags, row, params, want in cases:
+        st = State()
+        st.frames = []
+        args = [st.alloc(HObj("list", kind="list", items=list(tags))), st.alloc(HObj("dict", kind="dict", items=list(row), label="row")),
+                st.alloc(HObj("dict", kind="dict", items=list(params), label="params"))]
+        outs = it.call_function(st, f, args, {}, None, self_val=ClassVal(bc))
+        chk.instance(rule)
+        if len(outs) != 1 or outs[0][1] != "val":
+            raise AnalysisError("make_row_tags not foldable: %r" % ([(k, v) for _, k, v in outs][:3],))
+        v = outs[0][2]
+        got = list(outs[0][0].obj(v).items) if isinstance(v, Ref) and outs[0][0].obj(v).items is not None else v
+        if got == want:
+            chk.ok(rule, {"outline tags": tags, "row": dict(row), "params": dict(params), "row tags": got}, nontrivial_key=repr(tags))
+        else:
+            _fail(chk, rule, f, "%r -> %r" % (tags, got), "the outline tags %r with row %r and row parameters %r give the row tags %r; expected %r" % (
+                tags, dict(row), dict(params), got, want))
+    chk.absorb(it)
